@@ -39,7 +39,9 @@ type preset struct {
 }
 
 func (m *Model) GetPositions(opts ...resource.ReadOption) (*traits.OpenClosePositions, error) {
-	allPositions := m.positions.List(opts...) // already sorted by ID aka Direction ordinal
+	// the read mask describes fields of the OpenClosePositions we return, not of the individual positions
+	readRequest := resource.ComputeReadConfig(opts...)
+	allPositions := m.positions.List() // already sorted by ID aka Direction ordinal
 	dst := &traits.OpenClosePositions{
 		States: make([]*traits.OpenClosePosition, len(allPositions)),
 	}
@@ -52,7 +54,8 @@ func (m *Model) GetPositions(opts ...resource.ReadOption) (*traits.OpenClosePosi
 		dst.Preset = preset
 	}
 
-	return dst, nil
+	// dst refers to the stored positions, filter a copy
+	return readRequest.FilterClone(dst).(*traits.OpenClosePositions), nil
 }
 
 func (m *Model) GetPosition(dir traits.OpenClosePosition_Direction, opts ...resource.ReadOption) (*traits.OpenClosePosition, error) {
@@ -137,8 +140,8 @@ func (m *Model) PullPositions(ctx context.Context, ops ...resource.ReadOption) <
 
 			positions.Preset, _ = m.presetForValue(positions.States)
 
-			// projection and filtering
-			responseFilter.Filter(positions)
+			// projection and filtering, on a copy as positions refers to the stored positions
+			positions = responseFilter.FilterClone(positions).(*traits.OpenClosePositions)
 			if eq(last, positions) {
 				continue
 			}
